@@ -338,6 +338,16 @@ class SimServer:
             data = r.render(Reply(None, self._cap_lines(conn)))
             rec.raw = data
             self.net.enqueue(conn, data, scope)
+        elif kind in ("badline-utf8", "badline-blank"):
+            # a complete listing (final OK included) one line of which a client may choke on: a capability name that is
+            # not UTF-8, or a line of blanks
+            rec.status = b"OK"
+            r = Renderer(lambda k, v: False)
+            data = r.render(Reply(None, self._cap_lines(conn)))
+            bad = b'"\xff\xfeX" "y"\r\n' if kind == "badline-utf8" else b"  \r\n"
+            data = data + bad + b'OK "ready"\r\n'
+            rec.raw = data
+            self.net.enqueue(conn, data, scope)
         else:
             raise AssertionError(kind)
 
